@@ -6,7 +6,14 @@
    satisfy a requirement string is the oracle's ParseConstraint/Match answer, the order of
    two version strings is its Parse/Compare answer.  Every theorem holds for ALL oracles
    meeting the hypothesis it names (the comparator laws of Lib/Order.v on parsable strings:
-   that hypothesis is what property C01 establishes or refutes for the real semver). *)
+   that hypothesis is what property C01 establishes or refutes for the real semver).
+
+   [C : mcfg] says which of the three repairs of match.go the tree has (latest_exact:
+   F-C12-2, match_sorts: F-C12-1b, tie_break: F-C12-1; cfg_old = none, cfg_repaired = all).
+   The check detects C on every run by replaying the recorded witnesses on the Go code and
+   runs the correspondence with that C, so the model follows the tree; the theorems below
+   are for every C, the full statements under the hypothesis that the repair is in, the
+   refuted ones for cfg_old. *)
 From Coq Require Import List ZArith NArith Bool Sorting.Sorted Sorting.Permutation.
 From DepsDev Require Import Lib.Base Lib.Order Lib.Sort Lib.SortUniq Gen.ResolveTables Resolve.Attr
   Resolve.MatchReq Resolve.MatchReq_proofs Resolve.Client Resolve.Client_proofs.
@@ -27,93 +34,124 @@ Print Assumptions C12_sorted_perm_unique.
    string equals r (for npm: its string or one of its tags).  The result of
    MatchRequirement holds exactly the versions of the list that satisfy the requirement,
    for constraints in every system and for string requirements outside npm. *)
-Theorem C12_exact : forall O rk l v,
+Theorem C12_exact : forall C O rk l v,
   (N.eqb (pk_sys (vk_pkg rk)) sys_npm = true -> o_constraint O sys_npm (vk_ver rk) = true) ->
-  In v (match_requirement O rk l) <->
+  In v (match_requirement C O rk l) <->
   In v l /\ satisfies O (pk_sys (vk_pkg rk)) (vk_ver rk) v = true.
 Proof. exact match_requirement_exact. Qed.
 Print Assumptions C12_exact.
 
 (* an npm requirement that is not a range selects the first version, in npm order, whose
    string or one of whose tags equals it; the result is empty when there is none *)
-Theorem C12_npm_tag : forall O req l,
+Theorem C12_npm_tag : forall C O req l,
   o_constraint O sys_npm req = false ->
-  match_npm O req l = firstn 1 (filter (npm_exact req) (sort_npm O l)).
+  match_npm C O req l = firstn 1 (filter (npm_exact req) (sort_npm C O l)).
 Proof. exact match_npm_exact_string. Qed.
 Print Assumptions C12_npm_tag.
 
 (* in both npm cases the result is a sublist of the list in npm order *)
-Theorem C12_npm_result : forall O req l,
-  match_npm O req l =
-    if o_constraint O sys_npm req then filter (satisfies O sys_npm req) (sort_npm O l)
-    else firstn 1 (filter (satisfies O sys_npm req) (sort_npm O l)).
+Theorem C12_npm_result : forall C O req l,
+  match_npm C O req l =
+    if o_constraint O sys_npm req then filter (satisfies O sys_npm req) (sort_npm C O l)
+    else firstn 1 (filter (satisfies O sys_npm req) (sort_npm C O l)).
 Proof. exact match_npm_spec. Qed.
 Print Assumptions C12_npm_result.
 
 (* ---------- order ---------- *)
 (* npm: ascending by semver then spelling with unparsable versions after parsable ones
-   ([base]), then the last version whose tags contain the text latest moved to the end
-   unless it is a prerelease while some version is not ([reposition]) *)
-Theorem C12_sorted_npm : forall O l,
+   ([base]), then the last version tagged latest ([has_latest C]) moved to the end unless it
+   is a prerelease while some version is not ([reposition]) *)
+Theorem C12_sorted_npm : forall C O l,
   cmp_laws (npm_parses O) (o_compare O sys_npm) ->
   exists base,
     Permutation base l /\ StronglySorted (npm_le O) base /\
     (forall a b, npm_le O a b -> o_parses O sys_npm (ver b) = true -> o_parses O sys_npm (ver a) = true) /\
-    sort_npm O l = reposition O base.
+    sort_npm C O l = reposition C O base.
 Proof. exact sort_npm_spec. Qed.
 Print Assumptions C12_sorted_npm.
 
-Theorem C12_reposition_none : forall O base,
-  forallb (fun v => negb (has_latest v)) base = true -> reposition O base = base.
+Theorem C12_reposition_none : forall C O base,
+  forallb (fun v => negb (has_latest C v)) base = true -> reposition C O base = base.
 Proof. exact reposition_no_latest. Qed.
 Print Assumptions C12_reposition_none.
 
-Theorem C12_reposition_latest : forall O base pre y post,
-  base = pre ++ y :: post -> has_latest y = true ->
-  forallb (fun v => negb (has_latest v)) post = true ->
-  reposition O base =
+Theorem C12_reposition_latest : forall C O base pre y post,
+  base = pre ++ y :: post -> has_latest C y = true ->
+  forallb (fun v => negb (has_latest C v)) post = true ->
+  reposition C O base =
     if is_pre O y && existsb (fun v => negb (is_pre O v)) base then base else pre ++ post ++ [y].
 Proof. exact reposition_latest. Qed.
 Print Assumptions C12_reposition_latest.
 
-(* has_latest is a substring test on the tag text: a version whose tag list does not hold
-   the tag latest is repositioned all the same (F-C12-2) *)
+(* with repair 1 the version that is repositioned carries the tag latest among its comma
+   separated tags ... *)
+Theorem C12_latest_exact : forall C v,
+  latest_exact C = true -> has_latest C v = existsb (bytes_eqb s_latest) (split_on 44 (tags v)).
+Proof. exact has_latest_exact. Qed.
+Print Assumptions C12_latest_exact.
+
+(* ... before it, has_latest was a substring test on the tag text: a version whose tag list
+   does not hold the tag latest was repositioned all the same (F-C12-2); the repaired
+   variant leaves the same list in ascending order *)
 Theorem C12_latest_tag_refuted :
   existsb (bytes_eqb s_latest) (split_on 44 (tags w_n1)) = false /\
   npm_cmp all_oracle w_n1 w_n2 = (-1)%Z /\
-  sort_npm all_oracle [w_n1; w_n2] = [w_n2; w_n1].
-Proof. exact latest_substring_witness. Qed.
+  sort_npm cfg_old all_oracle [w_n1; w_n2] = [w_n2; w_n1] /\
+  sort_npm cfg_repaired all_oracle [w_n1; w_n2] = [w_n1; w_n2].
+Proof.
+  destruct latest_substring_witness as (H1 & H2 & H3).
+  exact (conj H1 (conj H2 (conj H3 latest_exact_repaired))).
+Qed.
 Print Assumptions C12_latest_tag_refuted.
 
-(* Maven, PyPI: SortVersions returns an ascending permutation of parsable versions, and a
-   match over an ascending slice (what LocalClient.MatchingVersions does) is ascending *)
-Theorem C12_sorted_generic : forall O sys v0 t,
+(* Maven, PyPI: SortVersions returns an ascending permutation of parsable versions.  [gen_le]
+   is ascending by Compare and, with repair 3, among versions that compare equal ascending
+   by spelling; in both cases it implies ascending by Compare (C12_order_is_semver). *)
+Theorem C12_sorted_generic : forall C O sys v0 t,
   v_sys v0 = sys -> N.eqb sys sys_npm = false ->
   cmp_laws (fun s => o_parses O sys s = true) (o_compare O sys) ->
   Forall (gen_parses O sys) (v0 :: t) ->
-  Permutation (sort_versions O (v0 :: t)) (v0 :: t) /\ StronglySorted (gen_le O sys) (sort_versions O (v0 :: t)).
+  Permutation (sort_versions C O (v0 :: t)) (v0 :: t) /\ StronglySorted (gen_le C O sys) (sort_versions C O (v0 :: t)).
 Proof. exact sort_versions_gen_spec. Qed.
 Print Assumptions C12_sorted_generic.
 
-Theorem C12_match_keeps_order : forall O sys req l,
-  StronglySorted (gen_le O sys) l -> StronglySorted (gen_le O sys) (match_generic O sys req l).
+Theorem C12_order_is_semver : forall C O sys a b,
+  gen_le C O sys a b -> (o_compare O sys (ver a) (ver b) <= 0)%Z.
+Proof. exact gen_le_semver. Qed.
+Print Assumptions C12_order_is_semver.
+
+(* raw MatchRequirement outside npm, with repair 2 (it sorts a copy of the list): the result
+   is ascending whatever the order of the input *)
+Theorem C12_sorted_match : forall C O sys req l,
+  match_sorts C = true -> N.eqb sys sys_npm = false ->
+  cmp_laws (fun s => o_parses O sys s = true) (o_compare O sys) ->
+  Forall (fun v => v_sys v = sys) l -> Forall (gen_parses O sys) l ->
+  StronglySorted (gen_le C O sys) (match_generic C O sys req l).
+Proof. exact match_generic_sorts. Qed.
+Print Assumptions C12_sorted_match.
+
+(* before repair 2: a match over an ascending slice (what LocalClient.MatchingVersions hands
+   over) is ascending *)
+Theorem C12_match_keeps_order : forall C O sys req l,
+  match_sorts C = false ->
+  StronglySorted (gen_le C O sys) l -> StronglySorted (gen_le C O sys) (match_generic C O sys req l).
 Proof. exact match_generic_sorted. Qed.
 Print Assumptions C12_match_keeps_order.
 
 (* ---------- permutation invariance ---------- *)
 (* npm: the comparator (semver, then spelling) separates distinct strings *)
-Theorem C12_perm_npm : forall O rk l l',
+Theorem C12_perm_npm : forall C O rk l l',
   N.eqb (pk_sys (vk_pkg rk)) sys_npm = true ->
   cmp_laws (npm_parses O) (o_compare O sys_npm) ->
   NoDup (map ver l) -> Permutation l l' ->
-  match_requirement O rk l = match_requirement O rk l'.
+  match_requirement C O rk l = match_requirement C O rk l'.
 Proof. exact match_requirement_npm_perm. Qed.
 Print Assumptions C12_perm_npm.
 
-Theorem C12_perm_sort_npm : forall O l l',
+Theorem C12_perm_sort_npm : forall C O l l',
   cmp_laws (npm_parses O) (o_compare O sys_npm) ->
-  NoDup (map ver l) -> Permutation l l' -> sort_npm O l = sort_npm O l'.
-Proof. intros O l l' HL. exact (sort_npm_perm_unique O HL l l'). Qed.
+  NoDup (map ver l) -> Permutation l l' -> sort_npm C O l = sort_npm C O l'.
+Proof. intros C O l l' HL. exact (sort_npm_perm_unique C O HL l l'). Qed.
 Print Assumptions C12_perm_sort_npm.
 
 (* the model sorts by insertion; whatever ascending permutation sort.Slice returns on a
@@ -124,31 +162,62 @@ Theorem C12_npm_any_sort : forall O l s,
 Proof. intros O l s HL. exact (isort_npm_is_the_sorted_perm O HL l s). Qed.
 Print Assumptions C12_npm_any_sort.
 
-(* Maven, PyPI: SortVersions is order-insensitive under the side condition that no two
-   different spellings compare equal *)
-Theorem C12_perm_sort_generic : forall O sys l l',
+(* Maven, PyPI.  [separated C O sys l]: the comparator of SortVersions separates the
+   versions of l, which is the case always with repair 3 (tie-break by spelling) and
+   otherwise under the side condition that no two different spellings compare equal. *)
+Theorem C12_separated_when_repaired : forall C O sys l, tie_break C = true -> separated C O sys l.
+Proof. intros C O sys l H. left. exact H. Qed.
+Print Assumptions C12_separated_when_repaired.
+
+Theorem C12_perm_sort_generic : forall C O sys l l',
   N.eqb sys sys_npm = false ->
   cmp_laws (fun s => o_parses O sys s = true) (o_compare O sys) ->
   Forall (fun v => v_sys v = sys) l ->
-  Forall (gen_parses O sys) l -> NoDup (map ver l) -> no_equal_distinct O sys l ->
-  Permutation l l' -> sort_versions O l = sort_versions O l'.
+  Forall (gen_parses O sys) l -> NoDup (map ver l) -> separated C O sys l ->
+  Permutation l l' -> sort_versions C O l = sort_versions C O l'.
 Proof. exact sort_versions_gen_perm_unique. Qed.
 Print Assumptions C12_perm_sort_generic.
 
-(* ... and so are LocalClient.Versions and LocalClient.MatchingVersions: two histories that
-   leave the same live versions in a package (for instance the same additions in another
-   order) return the same slice and the same matches *)
+(* raw MatchRequirement outside npm with repair 2: order-insensitive *)
+Theorem C12_perm_match : forall C O sys req l l',
+  match_sorts C = true -> N.eqb sys sys_npm = false ->
+  cmp_laws (fun s => o_parses O sys s = true) (o_compare O sys) ->
+  Forall (fun v => v_sys v = sys) l -> Forall (gen_parses O sys) l ->
+  NoDup (map ver l) -> separated C O sys l -> Permutation l l' ->
+  match_generic C O sys req l = match_generic C O sys req l'.
+Proof. exact match_generic_perm. Qed.
+Print Assumptions C12_perm_match.
+
+(* with all three repairs (and lawful Compare) the clause holds for Maven and PyPI as the
+   property states it: no side condition *)
+Theorem C12_perm_generic_repaired : forall O sys req l l',
+  N.eqb sys sys_npm = false ->
+  cmp_laws (fun s => o_parses O sys s = true) (o_compare O sys) ->
+  Forall (fun v => v_sys v = sys) l -> Forall (gen_parses O sys) l ->
+  NoDup (map ver l) -> Permutation l l' ->
+  match_generic cfg_repaired O sys req l = match_generic cfg_repaired O sys req l' /\
+  StronglySorted (gen_le cfg_repaired O sys) (match_generic cfg_repaired O sys req l).
+Proof.
+  intros O sys req l l' Hn HL Hs HP ND Hp. split.
+  - apply (match_generic_perm cfg_repaired O sys req l l'); auto. left; reflexivity.
+  - apply (match_generic_sorts cfg_repaired O sys req l); auto.
+Qed.
+Print Assumptions C12_perm_generic_repaired.
+
+(* LocalClient.Versions and LocalClient.MatchingVersions: two histories that leave the same
+   live versions in a package (for instance the same additions in another order) return
+   the same slice and the same matches *)
 Theorem C12_perm : forall O var ops1 ops2 k vs1 vs2,
-  laws_ok O -> var <> Current ->
-  var = FixAssignSort \/ N.eqb (pk_sys (vk_pkg k)) sys_npm = false ->
+  laws_ok O -> v_add var <> Current ->
+  v_add var = FixAssignSort \/ N.eqb (pk_sys (vk_pkg k)) sys_npm = false ->
   Forall (add_parses O) ops1 -> Forall (add_parses O) ops2 ->
   Forall add_concrete ops1 -> Forall add_concrete ops2 ->
   (forall k', vk_pkg k' = vk_pkg k -> option_map fst (last_add ops1 k') = option_map fst (last_add ops2 k')) ->
-  (N.eqb (pk_sys (vk_pkg k)) sys_npm = false -> no_equal_distinct O (pk_sys (vk_pkg k)) vs1) ->
+  (N.eqb (pk_sys (vk_pkg k)) sys_npm = false -> separated (v_cfg var) O (pk_sys (vk_pkg k)) vs1) ->
   versions_of (run O var ops1) (vk_pkg k) = Ok vs1 ->
   versions_of (run O var ops2) (vk_pkg k) = Ok vs2 ->
   vs1 = vs2 /\
-  matching_versions O (run O var ops1) k = matching_versions O (run O var ops2) k.
+  matching_versions O var (run O var ops1) k = matching_versions O var (run O var ops2) k.
 Proof.
   intros O var ops1 ops2 k vs1 vs2 HL Hv Hc P1 P2 C1 C2 Hs NE H1 H2.
   pose proof (versions_canonical O var HL ops1 ops2 (vk_pkg k) vs1 vs2 Hv Hc P1 P2 C1 C2 Hs NE H1 H2) as E.
@@ -156,40 +225,71 @@ Proof.
 Qed.
 Print Assumptions C12_perm.
 
-(* without the side condition: a lawful comparator that does not separate 1.0 from 1.0.0
-   (F-C12-1), at SortVersions and at the client *)
+(* the same for the tree with every repair in: no side condition, every system *)
+Theorem C12_perm_repaired : forall O ops1 ops2 k vs1 vs2,
+  laws_ok O ->
+  Forall (add_parses O) ops1 -> Forall (add_parses O) ops2 ->
+  Forall add_concrete ops1 -> Forall add_concrete ops2 ->
+  (forall k', vk_pkg k' = vk_pkg k -> option_map fst (last_add ops1 k') = option_map fst (last_add ops2 k')) ->
+  versions_of (run O var_repaired ops1) (vk_pkg k) = Ok vs1 ->
+  versions_of (run O var_repaired ops2) (vk_pkg k) = Ok vs2 ->
+  vs1 = vs2 /\
+  matching_versions O var_repaired (run O var_repaired ops1) k = matching_versions O var_repaired (run O var_repaired ops2) k.
+Proof.
+  intros O ops1 ops2 k vs1 vs2 HL P1 P2 C1 C2 Hs H1 H2.
+  apply (C12_perm O var_repaired ops1 ops2 k vs1 vs2); auto.
+  - discriminate.
+  - intros _. left. reflexivity.
+Qed.
+Print Assumptions C12_perm_repaired.
+
+(* before repair 3 and without the side condition: a lawful comparator that does not
+   separate 1.0 from 1.0.0 (F-C12-1), at SortVersions and at the client; with the repair
+   both orders give the same result *)
 Theorem C12_perm_refuted :
   (forall sys, cmp_laws (fun s => o_parses tie_oracle sys s = true) (o_compare tie_oracle sys)) /\
   Permutation [w_a; w_b] [w_b; w_a] /\ NoDup (map ver [w_a; w_b]) /\
-  sort_versions tie_oracle [w_a; w_b] <> sort_versions tie_oracle [w_b; w_a].
-Proof. split; [exact tie_oracle_laws | exact sort_tie_witness]. Qed.
+  sort_versions cfg_old tie_oracle [w_a; w_b] <> sort_versions cfg_old tie_oracle [w_b; w_a] /\
+  sort_versions cfg_repaired tie_oracle [w_a; w_b] = sort_versions cfg_repaired tie_oracle [w_b; w_a].
+Proof.
+  destruct sort_tie_witness as (H1 & H2 & H3). destruct sort_tie_repaired as (R1 & R2).
+  split; [exact tie_oracle_laws|]. split; [exact H1|]. split; [exact H2|]. split; [exact H3|].
+  rewrite R1, R2. reflexivity.
+Qed.
 Print Assumptions C12_perm_refuted.
 
 Theorem C12_perm_client_refuted :
   (forall k, option_map fst (last_add w_tie_1 k) = option_map fst (last_add w_tie_2 k)) /\
   Forall add_concrete w_tie_1 /\ Forall add_concrete w_tie_2 /\
-  matching_versions tie_oracle (run tie_oracle FixAssignSort w_tie_1) w_tie_req = Ok [w_a; w_b] /\
-  matching_versions tie_oracle (run tie_oracle FixAssignSort w_tie_2) w_tie_req = Ok [w_b; w_a].
+  matching_versions tie_oracle (mkvar FixAssignSort cfg_old) (run tie_oracle (mkvar FixAssignSort cfg_old) w_tie_1) w_tie_req = Ok [w_a; w_b] /\
+  matching_versions tie_oracle (mkvar FixAssignSort cfg_old) (run tie_oracle (mkvar FixAssignSort cfg_old) w_tie_2) w_tie_req = Ok [w_b; w_a].
 Proof. exact client_tie_witness. Qed.
 Print Assumptions C12_perm_client_refuted.
 
-(* raw MatchRequirement outside npm does not sort: the matches come back in input order,
-   here descending, and differ between the two orders of the list (F-C12-1b), although the
-   list has distinct strings that the lawful comparator separates *)
+(* raw MatchRequirement outside npm before repair 2: the matches came back in input order,
+   here descending, and differed between the two orders of the list (F-C12-1b), although
+   the list has distinct strings that the lawful comparator separates; the repaired variant
+   returns the ascending list for both *)
 Theorem C12_perm_raw_refuted :
   (forall sys, cmp_laws (fun s => o_parses all_oracle sys s = true) (o_compare all_oracle sys)) /\
   Permutation [w_m1; w_m2] [w_m2; w_m1] /\ NoDup (map ver [w_m1; w_m2]) /\
   no_equal_distinct all_oracle sys_maven [w_m1; w_m2] /\
-  match_requirement all_oracle w_req [w_m1; w_m2] = [w_m1; w_m2] /\
-  match_requirement all_oracle w_req [w_m2; w_m1] = [w_m2; w_m1] /\
-  gen_cmp all_oracle sys_maven w_m2 w_m1 = (-1)%Z.
+  match_requirement cfg_old all_oracle w_req [w_m1; w_m2] = [w_m1; w_m2] /\
+  match_requirement cfg_old all_oracle w_req [w_m2; w_m1] = [w_m2; w_m1] /\
+  gen_cmp cfg_old all_oracle sys_maven w_m2 w_m1 = (-1)%Z.
 Proof. split; [exact all_oracle_laws | exact match_raw_witness]. Qed.
 Print Assumptions C12_perm_raw_refuted.
 
+Theorem C12_perm_raw_repaired_example :
+  match_requirement cfg_repaired all_oracle w_req [w_m1; w_m2] = [w_m2; w_m1] /\
+  match_requirement cfg_repaired all_oracle w_req [w_m2; w_m1] = [w_m2; w_m1].
+Proof. exact match_raw_repaired. Qed.
+Print Assumptions C12_perm_raw_repaired_example.
+
 (* Non-vacuity: hypotheses satisfiable by non-trivial inputs *)
-Example C12_nonvacuous_npm :
-  NoDup (map ver [w_n3; w_l1; w_n2]) /\ sort_npm all_oracle [w_n3; w_l1; w_n2] = [w_n2; w_n3; w_l1] /\
-  sort_npm all_oracle [w_l1; w_n2; w_n3] = [w_n2; w_n3; w_l1].
+Example C12_nonvacuous_npm : forall C,
+  NoDup (map ver [w_n3; w_l1; w_n2]) /\ sort_npm C all_oracle [w_n3; w_l1; w_n2] = [w_n2; w_n3; w_l1] /\
+  sort_npm C all_oracle [w_l1; w_n2; w_n3] = [w_n2; w_n3; w_l1].
 Proof. exact npm_example. Qed.
 
 Example C12_nonvacuous_client :
@@ -199,7 +299,7 @@ Example C12_nonvacuous_client :
   Forall (add_parses demo_oracle) h1 /\ Forall (add_parses demo_oracle) h2 /\
   Forall add_concrete h1 /\ Forall add_concrete h2 /\
   (forall k, vk_pkg k = p -> option_map fst (last_add h1 k) = option_map fst (last_add h2 k)) /\
-  versions_of (run demo_oracle FixAssign h1) p = Ok [w_c1; w_c2] /\
-  versions_of (run demo_oracle FixAssign h2) p = Ok [w_c1; w_c2] /\
-  no_equal_distinct demo_oracle sys_maven [w_c1; w_c2].
+  versions_of (run demo_oracle var_repaired h1) p = Ok [w_c1; w_c2] /\
+  versions_of (run demo_oracle var_repaired h2) p = Ok [w_c1; w_c2] /\
+  separated cfg_repaired demo_oracle sys_maven [w_c1; w_c2].
 Proof. exact canonical_example. Qed.
